@@ -103,7 +103,7 @@ class Tables:
              '#define ACTIVE_BITS %d' % self.active_bits, '#define RESUMABLE_BITS %d' % self.resumable_bits,
              '#define SUBLIMIT %d' % (opts.get('sublimit') or 4), '#define TASKCAP %d' % (opts.get('taskcap') or self.compo_prongs * 2),
              '#define ROOT_IS_ORTHO %d' % int(self.root.is_ortho), '#define MANUAL %d' % int(bool(opts.get('manual'))),
-             '#define BOTTOMUP %d' % int(bool(opts.get('bottomup'))), '#define HAVE_UTIL %d' % int(bool(opts.get('_util'))), '#define INJECT %d' % int(bool(opts.get('inject'))), '#define HAVE_SERIAL %d' % int(bool(opts.get('_serial'))), '#define HAVE_PLANS %d' % int(bool(opts.get('_plans'))), '#define TASKCAP_DEFAULT %d' % int(not opts.get('taskcap')),
+             '#define BOTTOMUP %d' % int(bool(opts.get('bottomup'))), '#define HAVE_UTIL %d' % int(bool(opts.get('_util'))), '#define INJECT %d' % int(bool(opts.get('inject'))), '#define HAVE_SERIAL %d' % int(bool(opts.get('_serial'))), '#define HAVE_PLANS %d' % int(bool(opts.get('_plans'))), '#define HAVE_PAYLOAD %d' % int(bool(opts.get('payload'))), '#define TASKCAP_DEFAULT %d' % int(not opts.get('taskcap')),
              arr('st_parent', [n.parent.sid if n.parent else -1 for n in S]),
              arr('st_prong', [n.prong for n in S]),
              arr('st_kind', [0 if n.kind == 'L' else 1 if n.is_compo else 2 for n in S]),
@@ -424,6 +424,9 @@ struct VfLogger : M::LoggerInterface {
                 if k in (5, 6) and not util: continue
                 L.append('    case %d: return p.%s(O, D, pl);' % (k, pw[k]))
             L.append('    default: return 0; } }')
+        if payload:
+            L.append('%s unsigned vf_plan_item_payload(VfInst* m, unsigned region, unsigned idx) { unsigned n = 0; auto p = m->v.plan((hfsm2::RegionID)region); for (auto it = p.begin(); it; ++it, ++n) if (n == idx) return rd_payload(it->payload()); return 0xfffffffdu; }' % W)
+            L.append('%s unsigned vf_request_payload(VfInst* m, unsigned i) { return rd_payload(m->v._core.requests[i].payload()); }' % W)
         L.append('%s void vf_plan_clear(VfInst* m, unsigned region) { m->v.plan((hfsm2::RegionID)region).clear(); }' % W)
         L.append('%s unsigned vf_plan_len(VfInst* m, unsigned region) { unsigned n = 0; auto p = m->v.plan((hfsm2::RegionID)region); for (auto it = p.begin(); it; ++it) ++n; return n; }' % W)
         L.append('%s unsigned vf_plan_item(VfInst* m, unsigned region, unsigned idx, unsigned what) { unsigned n = 0; auto p = m->v.plan((hfsm2::RegionID)region); for (auto it = p.begin(); it; ++it, ++n) if (n == idx) return what == 0 ? it->origin : what == 1 ? it->destination : (unsigned)it->type; return 0xffffffffu; }' % W)
